@@ -471,6 +471,10 @@ func (buf *FetchMessageBuffer) populateItemData(item FetchItemData) error {
 func (c *Client) handleFetch(seqNum uint32) error {
 	dec := c.dec
 
+	if seqNum == 0 {
+		return fmt.Errorf("in FETCH: invalid message sequence number 0")
+	}
+
 	items := make(chan FetchItemData, 32)
 	defer close(items)
 
@@ -570,6 +574,9 @@ func (c *Client) handleFetch(seqNum uint32) error {
 		case "UID":
 			if !dec.ExpectSP() || !dec.ExpectUID(&uid) {
 				return dec.Err()
+			}
+			if uid == 0 {
+				return fmt.Errorf("in msg-att-static: invalid UID 0")
 			}
 
 			item = FetchItemDataUID{UID: uid}
